@@ -309,6 +309,74 @@ def r3(run: Run, src):
                             'translation code depends on the safety report', loc=loc_of(f.module.path, n))
 
 
+CONSTANT_PROBES = [
+    'plain', '', "it's", 'say "hi"', '''both ' and "''', 'back\\slash', 'line\nbreak', 'tab\there', 'x' * 99 + '\n' + 'second line',
+    'p' * 99 + '\\share', 'q' * 98 + "'" + '"' + 'rest' * 30, 'eval(1)', "'; import os; os.system('x'); '", '{braces} {0} {{x}}', '%s %d',
+    'a' * 250, ('ab\n' * 80), 'é ü ß 日本', '\x00\x07', "'''", '"""', '\\' * 101, 'z' * 100, 'z' * 101, 'z' * 199 + "'", ' leading', 'trailing ',
+    '#N/A', 'TRUE', '12', '1e5', '-', 'None', 'self._x()', '__import__("os")',
+    5, 0, -3, 2.5, -0.125, 1e300, 1e-7, 10 ** 20, True, False, None,
+]
+
+
+def r7_constants_eval(run: Run, src):
+    """what is printed for a constant cell, decided by abstract evaluation (engine F) of CellTranslator on probe constants: the
+    printed text is one Python expression, a literal that evaluates back to the constant itself (the blank constructor for an
+    empty cell) -- whatever characters, escapes, quotes and length the text has"""
+    from ..finite import evaluator_for_class, AV, const_av, Unknown, AbsRaise
+    ct = src.cls('CellTranslator')
+    fi = ct.methods.get('_set_cell_to_context') or ct.methods.get('translate')
+    if fi is None:
+        raise AnalysisError('C07.R7', 'CellTranslator._set_cell_to_context not found')
+    loc = loc_of(fi.module.path, fi.node)
+    for value in CONSTANT_PROBES:
+        ev = evaluator_for_class(ct, max_depth=8)
+        printed = []
+        cell = ev.new_obj('Cell', {'title': const_av(0), 'column': const_av(0), 'row': const_av(0), 'value': const_av(value),
+                                   'has_handled_identifiers': AV('func', val=('native', lambda a: const_av(True)))})
+        excel = ev.new_obj('Excel', {'fill_cell': AV('func', val=('native', lambda a: AV('none')))})
+
+        def set_cell(a, printed=printed):
+            printed.append(a[1])
+            return AV('none')
+        context = ev.new_obj('Context', {
+            'get_cell': AV('func', val=('native', lambda a, printed=printed: printed[-1] if printed else AV('none'))),
+            'set_cell': AV('func', val=('native', set_cell)),
+            'start_cell_translation': AV('func', val=('native', lambda a: const_av('_0_0_0'))),
+            'finish_cell_translation': AV('func', val=('native', lambda a: AV('none'))),
+        })
+        shown = repr(value) if not isinstance(value, str) or len(value) < 40 else repr(value[:18] + '...' + value[-18:]) + f' ({len(value)} characters)'
+        construct = f'constant/{shown}'
+        try:
+            ev.call_method('translate', [cell, excel, context], AV('other', val=('class', 'CellTranslator')))
+            if len(printed) != 1 or not isinstance(printed[0].val, str):
+                raise Unknown('what is printed for the cell is not a known text')
+            code = printed[0].val
+        except Unknown as u:
+            raise AnalysisError('C07.R7', f'{construct}: the abstraction cannot follow the translator ({u})')
+        except AbsRaise as e:
+            run.bad('C07.R7', construct, f'raises:{e.exc}', f'translating the constant {shown} raises {e.exc}', loc=loc)
+            continue
+        problem = None
+        try:
+            tree = ast.parse(code, mode='eval')
+        except SyntaxError as e:
+            problem = f'is not a Python expression ({e.msg})'
+            tree = None
+        if tree is not None:
+            if value is None:
+                ok = isinstance(tree.body, ast.Call) and ast.unparse(tree.body.func).endswith('EmptyCell') and not tree.body.args
+                problem = None if ok else 'is not the blank constructor'
+            else:
+                try:
+                    back = ast.literal_eval(tree)
+                    if type(back) is not type(value) or back != value:
+                        problem = f'denotes {back!r:.80}, not the constant'
+                except (ValueError, SyntaxError, MemoryError, RecursionError):
+                    problem = 'is not a literal: something of the text is read as code'
+        run.check(problem is None, 'C07.R7', construct, 'constant-not-literal',
+                  f'for the constant {shown} the translator prints `{code[:120]}`, which {problem}', fact='a literal of the constant', loc=loc)
+
+
 def run(run: Run):
     src = get_source()
     g = get_grammar(src)
@@ -344,6 +412,9 @@ def run(run: Run):
     run.rule('C07.R6', 'a text literal in operand position denotes its own text, whatever characters it contains (shared with C17.R6)')
     borrow(run, 'C07.R6', c17.r6, src, g, em)
     run.floor('C07.R6', 2)
+    run.rule('C07.R7', 'a constant cell is printed as one literal that evaluates back to the constant (any characters, any length)')
+    run.guard('C07.R7', r7_constants_eval, run, src)
+    run.floor('C07.R7', 40)
     run.floor('C07.R1', 70)
     run.floor('C07.R2', 2)
     run.floor('C07.R3', 1)
